@@ -25,12 +25,22 @@ CFG = {
                  "by the implementation-side oracles (reference RFC 4648 decoder, strict percent-decoder, alphabet checks) and a seeded "
                  "sample by the model; the rest hand-picked boundary strings and seeded random Unicode strings / values.",
     "trusted_base": TB_COMMON + [
-        "axioms: none expected (every C20 theorem should be 'Closed under the global context')",
+        "axioms: none (every C20 theorem is 'Closed under the global context')",
+        "tools/gen/codec.py (T-gen): the AsciiSet chains of urlencode.rs (flattened to base set + add/remove list) and which set each "
+        "filter passes to percent_encode; the (url_safe, padded) => ENGINE arms and kwarg defaults of b64_encode; the two decoder "
+        "engines (alphabet, DecodePaddingMode, allow_trailing_bits) and their selection in b64_decode; the pretty => "
+        "to_string_pretty/to_string selection of json_encode. The crate constants they name (CONTROLS, NON_ALPHANUMERIC, STANDARD..., "
+        "alphabet::STANDARD/URL_SAFE) are modelled in Model/Codec.v, not extracted",
         "modelled, not verified: crates base64 0.22.1 (GeneralPurpose engines, DecodePaddingMode::Indifferent), percent-encoding 2.3.2 "
         "(AsciiSet, percent_encode), serde_json 1.0.149 (compact and pretty writers, map-key serializer, string escaping, itoa), "
         "slug 0.1.6 (_slugify): ported by hand from their sources and tied to the code only by the correspondence run",
-        "oracles, not modelled: serde_json's float text (ryu) - supplied per case as a table and checked in Coq to be a JSON number that "
-        "rounds to the float; deunicode::deunicode_char 1.6.2 - supplied per case as a table (only its ASCII-ness matters to the property)",
+        "the reference JSON reader, strict percent-decoder, character classes and `canon` of Spec/Codec.v are the specification the "
+        "theorems are stated against: they are trusted to say what RFC 8259 / RFC 3986 / RFC 4648 say (the reader accepts exactly the RFC "
+        "8259 grammar with insignificant whitespace; it does not re-validate UTF-8 inside strings)",
+        "oracles, not modelled: serde_json's float text (zmij/ryu shortest representation) - the theorem C20_json_roundtrip takes it as a "
+        "function ft under the hypothesis floats_ok (a JSON number token, not an integer token, whose exact decimal value lies in the "
+        "round-to-nearest-even interval of the float); the correspondence run supplies the implementation's texts per case and Coq checks "
+        "that hypothesis on every one of them by exact integer arithmetic; deunicode::deunicode_char 1.6.2 - supplied per case as a table (only its ASCII-ness matters to the property)",
         "harness-side references written independently of the model: RFC 4648 decoder with lenient padding, strict percent-decoder, "
         "strict RFC 8259 reader keeping number tokens as text; serde_json's own reader is used for validity only (its float reader is "
         "not correctly rounded without the float_roundtrip feature, so floats are compared within 4 ulps on that path)",
